@@ -25,7 +25,7 @@ TRUSTED = ["lean/Tahoe/Spans/Model.lean, DataModel.lean and RegModel.lean are ha
            "the re-iteration at the same chunk is inlined)"]
 ASSUMPTIONS = ["offsets and lengths are non-negative ints (asserted by Spans.add/remove; DataSpans is only called with share offsets)",
                "DataSpans.get/pop with length 0 is outside the statement (result compared with the model only)",
-               "`a += a` / `a -= a` (right operand is the object being mutated) are probed by the monitor only, not sent to the model"]
+               "`a += a` / `a -= a` iterate over a snapshot of the operand (fix 13d6c66); modelled as the fold over the old value"]
 
 from common import hx
 
@@ -341,6 +341,25 @@ def run_dimpl(ctx, ops):
     return ";".join(outs)
 
 
+def trace_pair(kind, ops, impl_out):
+    """The answers-only view of a history: (driver line for strace/dtrace, the implementation's answers)."""
+    if impl_out.startswith("EXC:"):
+        return None
+    keep = "ariumc" if kind == "spans" else "argp"
+    fields = impl_out.split(";") if ops else []
+    toks, answers = [], []
+    full = (line_of(ops) if kind == "spans" else dline_of(ops)).split(" ")[1:]
+    for op, tok, out in zip(ops, full, fields):
+        if op[0] not in keep:
+            continue
+        toks.append(tok)
+        if op[0] in "cg":
+            answers.append(out)
+        elif op[0] == "p":
+            answers.append(out.split("/")[0])
+    return ("strace " if kind == "spans" else "dtrace ") + " ".join(toks), ";".join(answers) or "none"
+
+
 def dline_of(ops):
     toks = []
     for op in ops:
@@ -412,8 +431,8 @@ def gen_reg_history(rng, n, maxoff, base=0):
             if rng.random() < 0.6:                  # mutate the result or an operand right away
                 ops.append((rng.choice(["add", "rm"]), rng.choice([k, k, i, j]), base + rng.randrange(maxoff), l))
         elif r < 0.58:
-            if i != j:      # `a += a` / `a -= a` iterate over the object being mutated: probed separately (self_operand_probe)
-                ops.append((rng.choice(["iadd", "isub"]), i, j))
+            # i == j (`a += a`, `a -= a`) included: the operators iterate over a snapshot since /repo 13d6c66
+            ops.append((rng.choice(["iadd", "isub"]), i, j))
         elif r < 0.64:
             ops.append(("copy", k, i))
         elif r < 0.68:
@@ -581,7 +600,8 @@ REG_CORPUS = [
 
 
 def self_operand_probe(ctx):
-    """`a -= a` and `a += a` (the right operand is the object being mutated): monitor only, not sent to the model."""
+    """`a -= a` and `a += a` (the right operand is the object being mutated): directed monitor probe (the
+    named-value histories also generate them and compare with the model)."""
     from allmydata.util.spans import Spans
     for _ in range(20):
         pairs = gen_pairs(ctx.rng, 60) + [(100, 1), (102, 1), (104, 1)]
@@ -608,6 +628,11 @@ SPANS_CORPUS = [
     [("a", 0, 1), ("a", 2, 1), ("a", 4, 1), ("a", 1, 1), ("a", 3, 1), ("c", 0, 5), ("c", 0, 6), ("r", 2, 1), ("c", 0, 5)],
 ]
 DSPANS_CORPUS = [
+    # seeded C37-c: an add that exactly fills a hole (adjacent on both sides) must merge with both neighbours
+    [("a", 100, "01020304"), ("a", 108, "090a0b0c"), ("a", 104, "05060708"), ("g", 100, 12), ("g", 106, 4), ("p", 102, 8), ("l",), ("s",)],
+    [("a", 0, "aa"), ("a", 4, "bb"), ("a", 8, "cc"), ("a", 1, "010203040506"), ("a", 7, "07"), ("g", 0, 9), ("p", 6, 3), ("g", 0, 6)],
+    # seeded C37-a: a chunk whose first byte is 0xff, read from its first offset
+    [("a", 10, "ff00ff01"), ("g", 10, 1), ("g", 10, 4), ("p", 10, 2), ("a", 3, "ffff"), ("g", 3, 2), ("g", 4, 1)],
     # A then loop end; A then C; A then B; C2; D2; E; B; exact replace; append
     [("a", 10, "aabbcc"), ("a", 5, "0102"), ("a", 20, "ddeeff"), ("a", 8, "1112131415"), ("g", 5, 8), ("l",), ("s",)],
     [("a", 10, "aabbccdd"), ("a", 11, "ee"), ("a", 10, "01"), ("a", 13, "0203"), ("a", 9, "ff"), ("g", 9, 6), ("p", 9, 6), ("l",)],
@@ -675,6 +700,15 @@ def run(ctx):
     simpl = [guarded(ctx, run_impl, "spans", h) for h in shists]
     dimpl = [guarded(ctx, run_dimpl, "dspans", h) for h in dhists]
     rimpl = [guarded(ctx, run_regimpl, "reg", h) for h in rhists]
+    tcases, tlines, timpl = [], [], []
+    for kind, hs, outs in (("spans", shists, simpl), ("dspans", dhists, dimpl)):
+        for h, o in zip(hs, outs):
+            tp = trace_pair(kind, h, o)
+            if tp is not None:
+                tcases.append({"kind": kind, "ops": h}); tlines.append(tp[0]); timpl.append(tp[1])
+    tmodel = ctx.model(tlines)
+    if tmodel is not None:
+        ctx.compare("answers of a whole history (model strace/dtrace vs the real contains/get/pop results)", tcases, timpl, tmodel)
     model = ctx.model([line_of(h) for h in shists] + [dline_of(h) for h in dhists] + [regline_of(h) for h in rhists])
     if model is not None:
         ctx.compare("Spans history (internal _spans list after each op, query results)",
